@@ -172,7 +172,7 @@ class Check:
         st["_wall_s"] = round(time.time() - t, 2)
         return out, st
 
-    def tlc(self, module, cfg, files=(), workers=16, timeout=1800, heap="12g", extra=(), consts=None,
+    def tlc(self, module, cfg, files=(), workers=16, timeout=1800, heap="8g", extra=(), consts=None,
             simulate=None):
         """Runs TLC on spec/<module>.tla with spec/<cfg> in a private directory. `files` are copied in
         (path or (path, name-in-dir)). `consts` overrides constant values in the cfg (name -> text)."""
@@ -238,7 +238,7 @@ class Check:
                (" VIOLATED " + r.violated) if r.violated else ""))
 
     def trace(self, label, driver, dargs, module, cfg, props, agree=(), files_extra=(), timeout=1800,
-              nontrivial=None, key=None, driver_env=None, trace_path=None, stats=None, workers=16, heap="12g",
+              nontrivial=None, key=None, driver_env=None, trace_path=None, stats=None, workers=16, heap="8g",
               consts_extra=None, worker=False, race=False):
         """Go -> TLC: run a driver against the real code, then let TLC check every recorded event.
         props: invariants whose failure is a violation of the property; agree: invariants whose failure
